@@ -17,7 +17,10 @@ for d in sorted(glob.glob(os.path.join(V, "seeded", "*"))):
             if line and not line.startswith("#"):
                 first = line[:160]
                 break
-    rows.append((os.path.basename(d), j["breaks_property"], ", ".join(r.get("detected_by", [])) or "**none**",
+    det = ", ".join(r.get("detected_by", [])) or "**none**"
+    if j.get("first_missed"):
+        det += " (first missed; " + j.get("strengthening", "generator strengthened") + ")"
+    rows.append((os.path.basename(d), j["breaks_property"], det,
                  ", ".join("%s:%s" % (c, "VIOLATION" if v["rc"] == 1 else "pass") for c, v in r.get("checks", {}).items()), first))
 with open(os.path.join(V, "seeded", "README.md"), "w") as f:
     f.write("# Seeded changes\n\nEach directory holds `patch.diff` (apply with `git -C /repo apply`), `demo.rs` (fails with the patch, passes without), "
